@@ -1,7 +1,212 @@
 import Cherab.Drv.Proto
-open Cherab.Drv
+import Cherab.Model.Caching
+import Std.Data.HashMap
+open Cherab.Drv Cherab.Caching
 
-/-- C14 driver: not yet implemented (echo) -/
+/-!
+C14 driver.  Interactive line protocol (one reply per line):
+
+  fn <fid> <x..> <v>                       record f(x..) = v for function table <fid>            -> ok
+  new1 <id> <fid> mn mx dx nbe hasb lo hi       construct Caching1D model                        -> ok <top> <dom nodes> <xn nodes> | ValueError
+  new2 <id> <fid> mnx mxx mny mxy dx dy nbe hasb lo hi                                           -> ok <topx> <topy> <domx> <domy> <xnx> <xny> | ValueError
+  new3 <id> <fid> (6 bounds) dx dy dz nbe hasb lo hi                                             -> ok <topx> <topy> <topz> ... | ValueError
+  ev <id> <p..>           evaluate; if a new cell must be solved: -> solve <n> <A row-major> <b>   (then send `sol`)
+                          else                                   -> val <bits> <ncalls> <coords..> | raise 0 | missing ...
+  sol <c0..c(n-1)>        solution of the pending system          -> val <bits> <ncalls> <coords..>
+  dump <id>               cache state                             -> <ndata> (<idx..> <bits>)* <ncoeff> (<cell idx..>)*
+  fi <top> <padding> <v> <x0..xtop>        find_index                                              -> <int>
+-/
+
+abbrev Tbl := Std.HashMap (Nat × List UInt64) Float
+
+def truncF (x : Float) : Nat := x.floor.toUInt64.toNat
+def powF (x : Float) (n : Nat) : Float := Float.pow x n.toFloat
+def nanF : Float := 0.0 / 0.0
+
+inductive Obj where
+  | d1 (fid : Nat) (ax : Axis Float) (nm : Norm Float) (nbe : Bool) (st : St Float Nat Nat (Nat → Float))
+  | d2 (fid : Nat) (ax ay : Axis Float) (nm : Norm Float) (nbe : Bool)
+      (st : St Float (Nat × Nat) (Nat × Nat) (Nat → Float))
+  | d3 (fid : Nat) (ax ay az : Axis Float) (nm : Norm Float) (nbe : Bool)
+      (st : St Float (Nat × Nat × Nat) (Nat × Nat × Nat) (Nat → Float))
+
+structure DS where
+  tbl : Tbl := {}
+  objs : Std.HashMap Nat Obj := {}
+  pending : Option (Nat × List Float × List (List Float) × List Float) := none   -- id, point, A, b
+  missing : Bool := false
+
+def bitsOf (l : List Float) : List UInt64 := l.map Float.toBits
+
+/-- the recorded function; a coordinate that was never recorded yields NaN and is reported -/
+def fnOf (tbl : Tbl) (fid : Nat) (coords : List Float) : Float :=
+  match tbl.get? (fid, bitsOf coords) with
+  | some v => v
+  | none => nanF
+
+def known (tbl : Tbl) (fid : Nat) (coords : List Float) : Bool := (tbl.get? (fid, bitsOf coords)).isSome
+
+def env1 (tbl : Tbl) (fid : Nat) (nm : Norm Float) : Env Float Float :=
+  { f := fun x => fnOf tbl fid [x], isnan := Float.isNaN, nan := nanF, norm := nm.apply }
+def env2 (tbl : Tbl) (fid : Nat) (nm : Norm Float) : Env Float (Float × Float) :=
+  { f := fun p => fnOf tbl fid [p.1, p.2], isnan := Float.isNaN, nan := nanF, norm := nm.apply }
+def env3 (tbl : Tbl) (fid : Nat) (nm : Norm Float) : Env Float (Float × Float × Float) :=
+  { f := fun p => fnOf tbl fid [p.1, p.2.1, p.2.2], isnan := Float.isNaN, nan := nanF, norm := nm.apply }
+
+def extWith (sol : List (List Float) → List Float → (Nat → Float)) : Ext Float := { solve := sol, powi := powF }
+def zeroSol : List (List Float) → List Float → (Nat → Float) := fun _ _ _ => 0.0
+
+/-- a tabulated coefficient vector (captures the evaluated array; avoids re-evaluating closures) -/
+@[noinline] def tabOf (arr : Array Float) : Nat → Float := fun k => arr.getD k nanF
+
+/-- `solve` answering with the vector supplied by the harness (numpy.linalg.solve of the system the driver printed) -/
+def givenSol (c : List Float) : List (List Float) → List Float → (Nat → Float) :=
+  let arr := c.toArray
+  fun _ _ => tabOf arr
+
+/-- replace the most recently stored coefficient closure by its table (extensionally equal, evaluated once) -/
+def tabHead {κ : Type} (n : Nat) : List (κ × (Nat → Float)) → List (κ × (Nat → Float))
+  | [] => []
+  | (c, co) :: t => let arr := ((List.range n).map co).toArray; (c, tabOf arr) :: t
+
+def fmtOut (o : Out Float) (calls : List (List Float)) (tbl : Tbl) (fid : Nat) : String :=
+  let miss := calls.filter (fun c => !known tbl fid c)
+  if !miss.isEmpty then "missing " ++ fFs (miss.headD []) else
+  let cs := " ".intercalate (calls.map fFs)
+  match o with
+  | .val v => s!"val {fF v} {calls.length} {cs}".trimAscii.toString
+  | .raise => s!"raise {calls.length} {cs}".trimAscii.toString
+
+def axisLine (ax : Axis Float) : String :=
+  let idx := List.range (ax.top + 1)
+  fFs (idx.map ax.dom) ++ " " ++ fFs (idx.map ax.xn)
+
+def parseNorm (hasb lo hi : String) : Norm Float := mkNorm (if pB hasb then some (pF lo, pF hi) else none)
+
+/-- run one evaluation of object `o` at `pt` with the given `solve`; returns (object', out, calls, system if a new cell
+was calculated) -/
+def evalObj (tbl : Tbl) (sol : List (List Float) → List Float → (Nat → Float)) (o : Obj) (pt : List Float) :
+    Obj × Out Float × List (List Float) × Option (List (List Float) × List Float) :=
+  match o with
+  | .d1 fid ax nm nbe st =>
+    let E := env1 tbl fid nm
+    let S := spec1 (extWith sol) ax nm
+    let p := pt.getD 0 nanF
+    let r := evalStep S E nbe st p
+    let sys := if r.1.coeffs.length == st.coeffs.length then none else
+      match cellOf ax p with
+      | some c =>
+        let vals := (stencil1 c).map (readNode E r.1.data)
+        some (system1 ax c (fun k => vals.getD k 0))
+      | none => none
+    (.d1 fid ax nm nbe (if sys.isSome then { r.1 with coeffs := tabHead 4 r.1.coeffs } else r.1), r.2.1, r.2.2.map (fun x => [x]), sys)
+  | .d2 fid ax ay nm nbe st =>
+    let E := env2 tbl fid nm
+    let S := spec2 (extWith sol) ax ay nm
+    let p := (pt.getD 0 nanF, pt.getD 1 nanF)
+    let r := evalStep S E nbe st p
+    let sys := if r.1.coeffs.length == st.coeffs.length then none else
+      match cellOf2 ax ay p with
+      | some c =>
+        let vals := (stencil2 c).map (readNode E r.1.data)
+        some (system2 ax ay c (fun a b => vals.getD (4 * a + b) 0))
+      | none => none
+    (.d2 fid ax ay nm nbe (if sys.isSome then { r.1 with coeffs := tabHead 16 r.1.coeffs } else r.1), r.2.1, r.2.2.map (fun x => [x.1, x.2]), sys)
+  | .d3 fid ax ay az nm nbe st =>
+    let E := env3 tbl fid nm
+    let S := spec3 (extWith sol) ax ay az nm
+    let p := (pt.getD 0 nanF, pt.getD 1 nanF, pt.getD 2 nanF)
+    let r := evalStep S E nbe st p
+    let sys := if r.1.coeffs.length == st.coeffs.length then none else
+      match cellOf3 ax ay az p with
+      | some c =>
+        let vals := (stencil3 c).map (readNode E r.1.data)
+        some (system3 ax ay az c (fun a b cc => vals.getD (16 * a + 4 * b + cc) 0))
+      | none => none
+    (.d3 fid ax ay az nm nbe (if sys.isSome then { r.1 with coeffs := tabHead 64 r.1.coeffs } else r.1), r.2.1, r.2.2.map (fun x => [x.1, x.2.1, x.2.2]), sys)
+
+def fidOf : Obj → Nat
+  | .d1 fid .. => fid
+  | .d2 fid .. => fid
+  | .d3 fid .. => fid
+
+def dumpObj : Obj → String
+  | .d1 _ _ _ _ st =>
+    s!"{st.data.length} " ++ " ".intercalate (st.data.map fun (u, v) => s!"{u} {fF v}") ++
+    s!" {st.coeffs.length} " ++ " ".intercalate (st.coeffs.map fun (c, _) => s!"{c}")
+  | .d2 _ _ _ _ _ st =>
+    s!"{st.data.length} " ++ " ".intercalate (st.data.map fun (u, v) => s!"{u.1} {u.2} {fF v}") ++
+    s!" {st.coeffs.length} " ++ " ".intercalate (st.coeffs.map fun (c, _) => s!"{c.1} {c.2}")
+  | .d3 _ _ _ _ _ _ st =>
+    s!"{st.data.length} " ++ " ".intercalate (st.data.map fun (u, v) => s!"{u.1} {u.2.1} {u.2.2} {fF v}") ++
+    s!" {st.coeffs.length} " ++ " ".intercalate (st.coeffs.map fun (c, _) => s!"{c.1} {c.2.1} {c.2.2}")
+
+def step (s : DS) (ts : List String) : DS × String :=
+  match ts with
+  | "fn" :: fid :: rest =>
+    let vals := rest.map pF
+    let coords := vals.dropLast
+    ({ s with tbl := s.tbl.insert (pN fid, bitsOf coords) (vals.getLastD nanF) }, "ok")
+  | ["new1", id, fid, mn, mx, dx, nbe, hasb, lo, hi] =>
+    if !axisOk (pF mn) (pF mx) (pF dx) then (s, "ValueError") else
+    let ax := mkAxis truncF (pF mn) (pF mx) (pF dx)
+    let o := Obj.d1 (pN fid) ax (parseNorm hasb lo hi) (pB nbe) St.init
+    ({ s with objs := s.objs.insert (pN id) o }, s!"ok {ax.top} {axisLine ax}")
+  | ["new2", id, fid, mnx, mxx, mny, mxy, dx, dy, nbe, hasb, lo, hi] =>
+    -- the constructor checks both ranges first, then both resolutions; every failure is a ValueError
+    if !(axisOk (pF mnx) (pF mxx) (pF dx) && axisOk (pF mny) (pF mxy) (pF dy)) then (s, "ValueError") else
+    let ax := mkAxis truncF (pF mnx) (pF mxx) (pF dx)
+    let ay := mkAxis truncF (pF mny) (pF mxy) (pF dy)
+    let o := Obj.d2 (pN fid) ax ay (parseNorm hasb lo hi) (pB nbe) St.init
+    ({ s with objs := s.objs.insert (pN id) o }, s!"ok {ax.top} {ay.top} {axisLine ax} {axisLine ay}")
+  | ["new3", id, fid, mnx, mxx, mny, mxy, mnz, mxz, dx, dy, dz, nbe, hasb, lo, hi] =>
+    if !(axisOk (pF mnx) (pF mxx) (pF dx) && axisOk (pF mny) (pF mxy) (pF dy) && axisOk (pF mnz) (pF mxz) (pF dz)) then
+      (s, "ValueError") else
+    let ax := mkAxis truncF (pF mnx) (pF mxx) (pF dx)
+    let ay := mkAxis truncF (pF mny) (pF mxy) (pF dy)
+    let az := mkAxis truncF (pF mnz) (pF mxz) (pF dz)
+    let o := Obj.d3 (pN fid) ax ay az (parseNorm hasb lo hi) (pB nbe) St.init
+    ({ s with objs := s.objs.insert (pN id) o },
+     s!"ok {ax.top} {ay.top} {az.top} {axisLine ax} {axisLine ay} {axisLine az}")
+  | "ev" :: id :: pt =>
+    match s.objs.get? (pN id) with
+    | none => (s, "bad-id")
+    | some o =>
+      let p := pt.map pF
+      let (o', out, calls, sys) := evalObj s.tbl zeroSol o p
+      match sys with
+      | some (A, b) =>
+        -- a new cell: ask for numpy.linalg.solve(A, b); state is committed by `sol`
+        let miss := calls.filter (fun c => !known s.tbl (fidOf o) c)
+        if !miss.isEmpty then (s, "missing " ++ fFs (miss.headD [])) else
+        ({ s with pending := some (pN id, p, A, b) }, s!"solve {b.length} {fFs A.flatten} {fFs b}")
+      | none => ({ s with objs := s.objs.insert (pN id) o' }, fmtOut out calls s.tbl (fidOf o))
+  | "sol" :: cs =>
+    match s.pending with
+    | none => (s, "no-pending")
+    | some (id, p, _, _) =>
+      match s.objs.get? id with
+      | none => (s, "bad-id")
+      | some o =>
+        let (o', out, calls, _) := evalObj s.tbl (givenSol (cs.map pF)) o p
+        ({ s with objs := s.objs.insert id o', pending := none }, fmtOut out calls s.tbl (fidOf o))
+  | ["dump", id] =>
+    match s.objs.get? (pN id) with
+    | none => (s, "bad-id")
+    | some o => (s, (dumpObj o).trimAscii.toString)
+  | "fi" :: top :: pad :: v :: xs =>
+    let arr := (xs.map pF).toArray
+    (s, toString (findIndex (fun i => arr.getD i nanF) (pN top) (pF v) (pF pad)))
+  | _ => (s, "bad-op")
+
+partial def go (inp out : IO.FS.Stream) (s : DS) : IO Unit := do
+  let line ← inp.getLine
+  if line.isEmpty then return ()
+  let (s', o) := step s (toks line)
+  out.putStrLn o
+  out.flush
+  go inp out s'
+
 def main : IO UInt32 := do
-  loop (stateless fun ts => " ".intercalate ts) (← IO.getStdin) (← IO.getStdout) ()
+  go (← IO.getStdin) (← IO.getStdout) {}
   return 0
